@@ -46,6 +46,9 @@ func edgeDominates(from, to, b *ssa.BasicBlock) bool {
 // (walking the dominator tree upwards).
 func guardsOf(b *ssa.BasicBlock) []Guard {
 	var gs []Guard
+	for a := b; a != nil; a = a.Idom() {
+		gs = append(gs, mergedEdgeGuards(a)...)
+	}
 	for a := b.Idom(); a != nil; a = a.Idom() {
 		if len(a.Instrs) == 0 {
 			continue
@@ -65,6 +68,133 @@ func guardsOf(b *ssa.BasicBlock) []Guard {
 		}
 	}
 	return gs
+}
+
+// mergedEdgeGuards: facts that hold in block a because every edge into a carries the same comparison on the
+// corresponding operand of a phi of a. This is how go/ssa shapes `for i := range n` (and every rotated loop):
+// the body is entered from the pre-header under `0 < n` and from the latch under `i+1 < n`, and the counter is
+// phi(0, i+1); neither edge dominates the body, but together they give `counter < n`.
+// The fact is returned as a synthetic comparison (Op, X = the phi, Y = the common operand) that is not part of
+// the function's instruction stream.
+var mergedGuardCache = map[*ssa.BasicBlock][]Guard{}
+
+func mergedEdgeGuards(a *ssa.BasicBlock) []Guard {
+	if gs, ok := mergedGuardCache[a]; ok {
+		return gs
+	}
+	var out []Guard
+	defer func() { mergedGuardCache[a] = out }()
+	if len(a.Preds) < 2 {
+		return nil
+	}
+	type cmp struct {
+		op   token.Token
+		x, y ssa.Value
+		iff  *ssa.If
+	}
+	var edge []cmp
+	for _, p := range a.Preds {
+		if len(p.Instrs) == 0 {
+			return nil
+		}
+		iff, ok := p.Instrs[len(p.Instrs)-1].(*ssa.If)
+		if !ok || p.Succs[0] == p.Succs[1] {
+			return nil
+		}
+		g := Guard{iff.Cond, p.Succs[0] == a, iff}.norm()
+		bo, ok := g.Cond.(*ssa.BinOp)
+		if !ok {
+			return nil
+		}
+		op := bo.Op
+		if !g.Pol {
+			switch op {
+			case token.LSS:
+				op = token.GEQ
+			case token.LEQ:
+				op = token.GTR
+			case token.GTR:
+				op = token.LEQ
+			case token.GEQ:
+				op = token.LSS
+			case token.EQL:
+				op = token.NEQ
+			case token.NEQ:
+				op = token.EQL
+			default:
+				return nil
+			}
+		}
+		edge = append(edge, cmp{op, bo.X, bo.Y, iff})
+	}
+	sameConstOrVal := func(u, v ssa.Value) bool {
+		if u == v {
+			return true
+		}
+		cu, ok1 := u.(*ssa.Const)
+		cv, ok2 := v.(*ssa.Const)
+		if ok1 && ok2 {
+			a, oka := constInt(cu)
+			b, okb := constInt(cv)
+			return oka && okb && a == b
+		}
+		return false
+	}
+	for _, in := range a.Instrs {
+		ph, ok := in.(*ssa.Phi)
+		if !ok {
+			break
+		}
+		// try phi as the left operand, then as the right operand
+		for side := 0; side < 2; side++ {
+			var common ssa.Value
+			var op token.Token
+			good := true
+			for i, e := range edge {
+				px, py := e.x, e.y
+				eop := e.op
+				if side == 1 {
+					px, py = e.y, e.x
+					switch eop {
+					case token.LSS:
+						eop = token.GTR
+					case token.LEQ:
+						eop = token.GEQ
+					case token.GTR:
+						eop = token.LSS
+					case token.GEQ:
+						eop = token.LEQ
+					}
+				}
+				if !sameConstOrVal(px, ph.Edges[i]) {
+					good = false
+					break
+				}
+				if i == 0 {
+					common, op = py, eop
+				} else if !sameConstOrVal(common, py) || op != eop {
+					good = false
+					break
+				}
+			}
+			if !good || common == nil {
+				continue
+			}
+			// the common operand must be defined outside a (not another phi of a changing per edge)
+			if cin, isIn := common.(ssa.Instruction); isIn && cin.Block() == a {
+				continue
+			}
+			// entry edge's If for consumers that evaluate the other operand at the guard
+			iff := edge[0].iff
+			for i, p := range a.Preds {
+				if !a.Dominates(p) {
+					iff = edge[i].iff
+				}
+			}
+			out = append(out, Guard{Cond: &ssa.BinOp{Op: op, X: ph, Y: common}, Pol: true, If: iff})
+		}
+	}
+	return out
 }
 
 // guardsAt returns the guards for the block of instr.
